@@ -67,3 +67,11 @@ func specCommonPrefixOK(prefix string, key string, delimiter string, result *str
 	}
 	return result != nil && *result == key[:len(prefix)+i+len(delimiter)]
 }
+
+// specSameOptString: two optional strings are both absent or both present with the same value.
+func specSameOptString(a, b *string) bool {
+	if a == nil || b == nil {
+		return a == nil && b == nil
+	}
+	return *a == *b
+}
